@@ -133,7 +133,7 @@ def run_miri(prop, seed, out_dir, budget_s, procs, log):
         for pid in list(running):
             p, started, ms, idx, cmd, flags = running[pid]
             if p.poll() is None:
-                if time.time() - started > ms / 1000.0 + 60:
+                if time.time() - started > ms / 1000.0 + 120:
                     p.kill(); p.wait(); del running[pid]
                     notes.append('miri process %d killed by the watchdog (inconclusive): MIRIFLAGS="%s" %s' % (idx, flags, ' '.join(cmd)))
                 continue
